@@ -302,6 +302,10 @@ PLANS["C08"] = {
              invariants=[], budget=100, variants=RENDERS[:2], storage="notes", per_tag=1),
         dict(name="partial-default", consts=consts(alphabet=PARTIAL, steps=5, commits=3, lines=3), invariants=[],
              budget=80, variants=RENDERS[:2], storage="default"),
+        # notes written at the end of conflict episodes (continue, plain commit, skip) under the default storage mode
+        dict(name="conflicts-default", consts=consts(alphabet=CONFLICT, steps=9, commits=6, uid=4, lines=4, sessions=("S1",)),
+             invariants=[], budget=60, variants=RENDERS[:1], storage="default", per_tag=1,
+             require_action=("CherryPickR", "CherryPickManyR", "RebaseR")),
     ],
     "thorough": [
         dict(name=st, consts=consts(alphabet=C08_ALPHA + ("edit_del",), steps=9, commits=7, uid=5, lines=4,
